@@ -8,6 +8,7 @@ import (
 	"fmt"
 	"io"
 	"strings"
+	"sync"
 	"testing/iotest"
 
 	mxj "github.com/clbanning/mxj/v2"
@@ -117,6 +118,16 @@ func replayArgs(line []byte, a *Acc) {
 	var err error
 	if call("NewMap", func() { _, err = mv.NewMap(l.S) }) && cls(err) != l.Pair {
 		one("args:pair:error-class", fmt.Sprintf("NewMap(%q): err=%v, specification %s", l.S, err, l.Pair))
+	}
+	// a pair the specification refuses is refused wherever it stands: after pairs that were accepted, after a pair that selected nothing
+	if l.Pair == "err" && l.S != "" {
+		for _, first := range [][]string{{"a:r"}, {"zz:r"}, {"a:r", "", "b:s"}} {
+			var e2 error
+			args := append(append([]string{}, first...), l.S)
+			if call("NewMap(accepted pairs, then this one)", func() { _, e2 = mv.NewMap(args...) }) && e2 == nil {
+				one("args:pair:error-class", fmt.Sprintf("NewMap(%q) returned no error; alone the last pair is refused", args))
+			}
+		}
 	}
 	// ... and together with a second pair that lands on the SAME new key (values of every kind meet there: scalar, list, map)
 	newKey := l.S
@@ -346,12 +357,36 @@ func checkXmlInput(doc []byte, class, origin string, a *Acc, rc interface{}) int
 	return n
 }
 
+// documents outside the builder's alphabet that the tokenizer accepts: a repeated attribute label, short values that consist
+// almost entirely of characters with long entity names (the escaped form is six times as long)
+var tokExtraDocs = []string{
+	`<a x="1" x="2"/>`, `<a x="1" x="2" x="3"><b y="" y="">t</b></a>`, `<p:a q:x="1" r:x="2"/>`,
+	`<a>""""""""""""x</a>`, `<a b="''''''''''''''x"/>`, `<a>&amp;&amp;&amp;&amp;&amp;&amp;&amp;&amp;&amp;&amp;&amp;&amp;&amp;&amp;x</a>`,
+	`<a b="&quot;&quot;&quot;&quot;&quot;&quot;&quot;&quot;&quot;&quot;&quot;&quot;&quot;&quot;&quot;&quot;">''''''''''''''''</a>`,
+}
+var tokExtraOnce sync.Once
+
 func replayTok(line []byte, a *Acc) {
 	var l tokLine
 	if err := json.Unmarshal(line, &l); err != nil {
 		panic(err)
 	}
 	cases, nontriv := 0, 0
+	tokExtraOnce.Do(func() {
+		for _, d := range tokExtraDocs {
+			doc := []byte(d)
+			for _, allOn := range []bool{false, true} {
+				if allOn {
+					decOpt{lower: true, snake: true, asmap: true, keep: true, escdec: true, tagseq: true, apfx: "@", kpfx: "_"}.apply()
+				} else {
+					mxj.XMLEscapeChars(true) // (encoder-side escaping for the encoders the decoded Maps are passed to)
+				}
+				cases += checkXmlInput(doc, oracleClass(doc), "document outside the builder's alphabet", a, rawCase(doc, allOn))
+				resetDecOpts()
+				mxj.XMLEscapeChars(false)
+			}
+		}
+	})
 	for _, r := range l.Raw {
 		b, _ := base64.StdEncoding.DecodeString(r.B64)
 		if r.AllOn {
